@@ -458,8 +458,9 @@ def _two_files(V):
         lab2 = X.elem(I, "t", {"id": f"{tagid}6"}, [X.elem(I, "s", {"face": "1"}, text="k2")])
         cap = X.elem(I, "t", {"id": f"{tagid}7"}, [X.elem(I, "s", {"face": "0"}, text="caption")])   # not bold: not a label
         two = X.elem(I, "t", {"id": f"{tagid}8"}, [X.elem(I, "s", {"face": "1"}, text="x"), X.elem(I, "s", {"face": "1"}, text="y")])
+        dup = X.elem(I, "t", {"id": f"{tagid}4"}, [X.elem(I, "s", {"face": "1"}, text="k1")])     # the label text "k1" used twice
         grp = X.elem(I, "group", {}, [f1, lab2])
-        pg = X.elem(I, "page", {}, [f0, junk, lab, cap, two, grp])
+        pg = X.elem(I, "page", {}, [f0, junk, lab, cap, two, dup, grp])
         root = X.elem(I, "CDXML", {"BondLength": "14.4"}, [pg])
         return root, f0, f1, lab, lab2
 
@@ -502,7 +503,7 @@ def _two_files(V):
     V.ensure("files/open", z3.BoolVal(True))
     for nm, f_, (root, f0, f1, lab, lab2) in (("a", fa, trees["a.cdxml"]), ("b", fb, trees["b.cdxml"])):
         xl, xf = f_.fields.get("xlabels"), f_.fields.get("xfrags")
-        V.ensure(f"files/{nm}:labels-are-the-bold-single-run-text-boxes", z3.BoolVal(isinstance(xl, DictV) and xl.keys == ["k1", "k2"] and xl.vals[0] is lab and xl.vals[1] is lab2))
+        V.ensure(f"files/{nm}:labels-are-the-bold-single-run-text-boxes-first-occurrence-kept", z3.BoolVal(isinstance(xl, DictV) and xl.keys == ["k1", "k2"] and xl.vals[0] is lab and xl.vals[1] is lab2))
         V.ensure(f"files/{nm}:fragments-are-those-with-a-bond-in-page-then-group-order", z3.BoolVal(isinstance(xf, ListV) and len(xf.items) == 2 and xf.items[0] is f0 and xf.items[1] is f1))
         V.ensure(f"files/{nm}:bond-length-read-from-the-document", I.eq(f_.fields.get("bond_length"), 14.4))
     # the same label in two open files: each resolves inside its own file, whatever was asked of the other one before
